@@ -211,13 +211,26 @@ class Verdict:
         self.ev.cov['violation_keys'] = hist
         rdir = os.path.join(EVID, 'replays')
         os.makedirs(rdir, exist_ok=True)
-        for i, (key, what, replay) in enumerate(self.new[:5]):
+        # one replay per distinct key first, then further cases of the same keys
+        firsts, rest, seenk = [], [], set()
+        for v in self.new:
+            (rest if v[0] in seenk else firsts).append(v)
+            seenk.add(v[0])
+        for i, (key, what, replay) in enumerate((firsts + rest)[:8]):
             path = os.path.join(rdir, '%s-%d-%d.json' % (self.pid, seed(), i))
             with open(path, 'w') as f:
                 json.dump({'property': self.pid, 'key': key, 'what': what, 'replay': replay}, f, indent=1, default=str)
             log('VIOLATION property=%s replay=%s' % (self.pid, path))
             log('  key=%s %s' % (key, str(what)[:300]))
         return 1
+
+
+def stat(out, tag):
+    """<<"STAT", tag, chunk, a, b, ...>> lines printed by the record specs, one per chunk (TLC may evaluate an action more than once)."""
+    d = {}
+    for m in re.finditer(r'<<"STAT", "%s", (\d+)((?:, \d+)+)>>' % tag, out):
+        d[int(m.group(1))] = [int(x) for x in m.group(2).split(',')[1:]]
+    return list(d.values())
 
 
 def parse_tla_value(txt):
